@@ -28,7 +28,7 @@ Definition tk_IDENT : Z := 4%Z.
 Definition tk_INT : Z := 5%Z.
 
 (* functions of interface.go / parser_gop.go and every function instantiating a `parser`:
-   (name, exported, instantiates parser, deferred recover+bailout test+re-raise, Sort;Err, raw errors, fills nil file, merges sub-parser errors, callees) *)
+   (name, exported, instantiates parser, deferred recover+bailout test+re-raise, Sort directly before err is set, err = p.errors (ErrorList result), fills nil file, merges sub-parser errors, callees) *)
 Definition entries : list (str * (bool * bool * bool * bool * bool * bool * bool) * list str) :=
   [([80;97;114;115;101]%N (* Parse *), (true, false, false, false, false, false, false), [[80;97;114;115;101;70;105;108;101]%N; [97;115;116;70;105;108;101;84;111;80;107;103]%N]);
    ([80;97;114;115;101;68;105;114]%N (* ParseDir *), (true, false, false, false, false, false, false), [[80;97;114;115;101;70;83;68;105;114]%N]);
@@ -36,7 +36,7 @@ Definition entries : list (str * (bool * bool * bool * bool * bool * bool * bool
    ([80;97;114;115;101;69;110;116;114;105;101;115]%N (* ParseEntries *), (true, false, false, false, false, false, false), [[80;97;114;115;101;70;83;69;110;116;114;105;101;115]%N]);
    ([80;97;114;115;101;69;110;116;114;121]%N (* ParseEntry *), (true, false, false, false, false, false, false), [[80;97;114;115;101;70;83;69;110;116;114;121]%N]);
    ([80;97;114;115;101;69;120;112;114]%N (* ParseExpr *), (true, false, false, false, false, false, false), [[80;97;114;115;101;69;120;112;114;70;114;111;109]%N]);
-   ([80;97;114;115;101;69;120;112;114;69;120]%N (* ParseExprEx *), (true, true, true, false, true, false, false), []);
+   ([80;97;114;115;101;69;120;112;114;69;120]%N (* ParseExprEx *), (true, true, true, true, true, false, false), []);
    ([80;97;114;115;101;69;120;112;114;70;114;111;109]%N (* ParseExprFrom *), (true, true, true, true, false, false, false), []);
    ([80;97;114;115;101;70;83;68;105;114]%N (* ParseFSDir *), (true, false, false, false, false, false, false), [[80;97;114;115;101;70;83;70;105;108;101]%N; [102;105;108;116;101;114]%N; [114;101;113;80;107;103]%N]);
    ([80;97;114;115;101;70;83;69;110;116;114;105;101;115]%N (* ParseFSEntries *), (true, false, false, false, false, false, false), [[80;97;114;115;101;70;83;69;110;116;114;121]%N]);
@@ -97,7 +97,8 @@ Definition panic_sites : list (str * str * Z) :=
 
 (* accesses to an `errors` field other than reads; class 1 = Add, 2 = append of a sub-parser/tpl error list, 3 = Sort inside a wrapper closure, 0 = anything else: (function, kind, class) *)
 Definition errors_writes : list (str * str * Z) :=
-  [([80;97;114;115;101;69;120;112;114;70;114;111;109]%N (* ParseExprFrom *), [112;46;101;114;114;111;114;115;46;83;111;114;116]%N (* p.errors.Sort: Sort *), 3%Z);
+  [([80;97;114;115;101;69;120;112;114;69;120]%N (* ParseExprEx *), [112;46;101;114;114;111;114;115;46;83;111;114;116]%N (* p.errors.Sort: Sort *), 3%Z);
+   ([80;97;114;115;101;69;120;112;114;70;114;111;109]%N (* ParseExprFrom *), [112;46;101;114;114;111;114;115;46;83;111;114;116]%N (* p.errors.Sort: Sort *), 3%Z);
    ([112;97;114;115;101;70;105;108;101]%N (* parseFile *), [112;46;101;114;114;111;114;115;46;83;111;114;116]%N (* p.errors.Sort: Sort *), 3%Z);
    ([112;97;114;115;101;114;46;100;111;109;97;105;110;84;101;120;116;76;105;116;69;120]%N (* parser.domainTextLitEx *), [112;46;101;114;114;111;114;115;32;61]%N (* p.errors =: append sp.errors... *), 2%Z);
    ([112;97;114;115;101;114;46;101;114;114;111;114]%N (* parser.error *), [112;46;101;114;114;111;114;115;46;65;100;100]%N (* p.errors.Add: Add *), 1%Z);
